@@ -19,6 +19,7 @@ transforms:
   isnot      `a is not b` -> `not a is b` (likewise not in, !=)
   kwargs     positional arguments of self.<method>(...) calls become keyword arguments
   earlyreturn  trailing `if c: BODY` of a function -> `if not c: return` + BODY
+  condlocal  `if TEST:` -> `c = TEST; if c:`
   hoist      final attributes (assigned only in __init__) read twice or more in a method are read once into a local
 """
 import ast
@@ -154,6 +155,32 @@ class KwArgs(ast.NodeTransformer):
         return n
 
 
+class CondLocal(ast.NodeTransformer):
+    """`if TEST:` -> `_mm_c<k> = TEST` + `if _mm_c<k>:` (TEST not a bare name / constant; one fresh name per if)"""
+    def __init__(self):
+        self.k = 0
+
+    def _block(self, stmts):
+        out = []
+        for s in stmts:
+            if isinstance(s, ast.If) and not isinstance(s.test, (ast.Name, ast.Constant)) and not any(isinstance(x, ast.NamedExpr) for x in ast.walk(s.test)):
+                self.k += 1
+                nm = f"_mm_c{self.k}"
+                out.append(ast.copy_location(ast.Assign(targets=[ast.Name(id=nm, ctx=ast.Store())], value=s.test), s))
+                s.test = ast.copy_location(ast.Name(id=nm, ctx=ast.Load()), s)
+            out.append(s)
+        return out
+
+    def generic_visit(self, n):
+        super().generic_visit(n)
+        if isinstance(n, (ast.FunctionDef, ast.AsyncFunctionDef, ast.If, ast.For, ast.While, ast.With, ast.Try, ast.ExceptHandler)):
+            for fld in ("body", "orelse", "finalbody"):
+                lst = getattr(n, fld, None)
+                if isinstance(lst, list) and lst and isinstance(lst[0], ast.stmt):
+                    setattr(n, fld, self._block(lst))
+        return n
+
+
 class EarlyReturn(ast.NodeTransformer):
     """a function whose LAST statement is `if c: BODY` (no else, function returns None there) -> `if not c: return` + BODY"""
     def _fn(self, n):
@@ -269,7 +296,7 @@ def transform(kind: str, src: str, filename: str) -> str:
     if kind == "hoist":
         return hoist_final_attrs(src)
     tree = ast.parse(src)
-    tree = {"flipcmp": FlipCmp, "ifswap": IfSwap, "nestand": NestAnd, "retlocal": RetLocal, "augassign": AugToAssign, "isnot": IsNot, "kwargs": KwArgs, "earlyreturn": EarlyReturn}[kind]().visit(tree)
+    tree = {"flipcmp": FlipCmp, "ifswap": IfSwap, "nestand": NestAnd, "retlocal": RetLocal, "augassign": AugToAssign, "isnot": IsNot, "kwargs": KwArgs, "earlyreturn": EarlyReturn, "condlocal": CondLocal}[kind]().visit(tree)
     ast.fix_missing_locations(tree)
     return ast.unparse(tree)
 
